@@ -2,6 +2,7 @@ package characteristic
 
 import (
 	"fmt"
+	"math"
 	"net"
 
 	"github.com/xiam/to"
@@ -124,6 +125,10 @@ func (c *Characteristic) updateValue(value interface{}, conn net.Conn, checkPerm
 	// Value must be within min and max
 	switch c.Format {
 	case FormatFloat:
+		// Ignore values which are not finite numbers (e.g. the string "NaN")
+		if f := value.(float64); math.IsNaN(f) || math.IsInf(f, 0) {
+			return
+		}
 		value = c.clampFloat(value.(float64))
 	case FormatUInt8, FormatUInt16, FormatUInt32, FormatUInt64, FormatInt32:
 		value = c.clampInt(value.(int))
@@ -202,6 +207,8 @@ func (c *Characteristic) convert(v interface{}) interface{} {
 		return int(to.Uint64(v))
 	case FormatBool:
 		return to.Bool(v)
+	case FormatString, FormatTLV8, FormatData:
+		return to.String(v)
 	default:
 		return v
 	}
